@@ -2497,6 +2497,109 @@ def _rp_reusefiles(rp):
 
 
 # --------------------------------------------------------------------------
+# anchors, aliases and merge keys in the YAML input of every non-YAML encoder: the output must be the output for the
+# exploded document, with -o=<fmt> and with the to_<fmt> / @<fmt> operators
+# --------------------------------------------------------------------------
+def gen_alias_map_doc(rng):
+    """a mapping document with anchored maps / scalars / sequences, plain aliases and merge keys (single and list)"""
+    lines = ["base: &b", "  restart: always", "  level: %d" % rng.randrange(9)]
+    if rng.random() < 0.5:
+        lines += ["  env: &e [x, y]"]
+    lines += ["other: &c", "  mode: fast", "  level: 7"]
+    lines.append("name: &n %s" % rng.choice(["hello", "a b", "v1"]))
+    for i in range(rng.randrange(1, 5)):
+        kind = rng.choice(["merge", "merge", "mergelist", "alias", "scalar", "nested", "seq"])
+        if kind == "merge":
+            lines += ["svc%d:" % i, "  <<: *%s" % rng.choice("bc"), "  image: img%d" % i]
+        elif kind == "mergelist":
+            lines += ["svc%d:" % i, "  <<: [*b, *c]", "  image: img%d" % i]
+        elif kind == "alias":
+            lines += ["svc%d: *%s" % (i, rng.choice("bc"))]
+        elif kind == "scalar":
+            lines += ["svc%d: *n" % i]
+        elif kind == "nested":
+            lines += ["svc%d:" % i, "  inner:", "    <<: *c", "    tag: *n"]
+        else:
+            lines += ["svc%d: [*n, plain, *n]" % i]
+    return "\n".join(lines) + "\n"
+
+
+def gen_alias_rows_doc(rng):
+    """an array of flat objects / of scalar rows using anchors, aliases and merge keys"""
+    if rng.random() < 0.6:
+        lines = ["- &r {a: 1, b: x}", "- *r"]
+        for i in range(rng.randrange(1, 4)):
+            lines.append(rng.choice(["- {<<: *r, b: y%d}" % i, "- *r", "- {a: %d, b: &s%d z}" % (i, i)]))
+        return "\n".join(lines) + "\n"
+    return "- [&s v, *s, w]\n- &row [p, q, r]\n- *row\n"
+
+
+ALIAS_FMTS = ["props", "xml", "lua", "shell", "json", "toml"]
+ALIAS_OPS = ["to_props", "to_xml", "to_json", "@json"]      # (the YAML encoder keeps anchors and aliases by design)
+ALIAS_ROW_FMTS = ["csv", "tsv", "json"]
+ALIAS_ROW_OPS = ["to_csv", "@csv", "to_tsv", "@tsv", "to_json"]
+ALIAS_SCALAR_OPS = ["@base64", "@uri", "@sh", "to_json"]
+
+
+def alias_pair(text, fmt, pre, op):
+    """two requests whose outputs must coincide: the document as it is, and exploded first"""
+    suffix = (" | " + op) if op else ""
+    mk = lambda e: {"op": "eval", "in": "yaml", "out": fmt, "expr": e, "input": text}
+    return mk(pre + suffix if pre != "." or not op else op), mk(("explode(.) | " + pre if pre != "." else "explode(.)") + suffix)
+
+
+def alias_judge(r1, r2):
+    for r in (r1, r2):
+        if r is None or r.get("panic") or r.get("timeout") or r.get("crash") or r.get("harness_error"):
+            return False, "crash: %r" % (r,)
+    if bool(r1.get("err")) != bool(r2.get("err")):
+        return False, "one of the two fails: as is %r, exploded first %r" % (r1.get("err"), r2.get("err"))
+    if not r1.get("err") and r1.get("out_b64") != r2.get("out_b64"):
+        return False, "as is: %r; exploded first: %r" % (vlib.b64d(r1["out_b64"])[:300], vlib.b64d(r2["out_b64"])[:300])
+    return True, ""
+
+
+@section
+def sec_alias(cx):
+    chk, rng = cx.chk, cx.rng
+    cases = []      # (text, fmt, pre, op)
+    for _ in range(cx.n(25, 400)):
+        t = gen_alias_map_doc(rng)
+        for f in ALIAS_FMTS:
+            cases.append((t, f, ".", ""))
+        for op in ALIAS_OPS:
+            cases.append((t, "yaml", ".", op))
+        for op in ALIAS_SCALAR_OPS:
+            cases.append((t, "yaml", ".svc0 // .name", op))
+        cases.append((t, "props", ".svc0 // .base", ""))
+    for _ in range(cx.n(15, 200)):
+        t = gen_alias_rows_doc(rng)
+        for f in ALIAS_ROW_FMTS:
+            cases.append((t, f, ".", ""))
+        for op in ALIAS_ROW_OPS:
+            cases.append((t, "yaml", ".", op))
+    cases.append(("common: &common\n  restart: always\nservices:\n  web:\n    <<: *common\n    image: nginx\n", "props", ".", ""))
+    cases.append(("common: &common\n  restart: always\nservices:\n  web:\n    <<: *common\n    image: nginx\n", "yaml", ".", "to_props | from_props"))
+    reqs = []
+    for t, f, pre, op in cases:
+        reqs += list(alias_pair(t, f, pre, op))
+    resp = vlib.yqh_parallel(reqs)
+    for i, (t, f, pre, op) in enumerate(cases):
+        good, why = alias_judge(resp[2 * i], resp[2 * i + 1])
+        chk.count(("alias", t, f, pre, op), nontrivial=True)
+        if not good:
+            cx.viol("alias", {"text": t, "fmt": f, "pre": pre, "op_expr": op, "exprs": [reqs[2 * i]["expr"], reqs[2 * i + 1]["expr"]], "why": why},
+                    "YAML with anchors / aliases / merge keys: -o=%s %s does not give what it gives for the exploded document: %s" % (f, reqs[2 * i]["expr"], why))
+    cx.dist["alias"] = {"cases": len(cases)}
+
+
+def _rp_alias(rp):
+    a, b = alias_pair(rp["text"], rp["fmt"], rp["pre"], rp["op_expr"])
+    r = vlib.yqh_batch([a, b])
+    return alias_judge(r[0], r[1])[0]
+
+
+# --------------------------------------------------------------------------
 # replay / run
 # --------------------------------------------------------------------------
 def replay(rp):
@@ -2653,7 +2756,7 @@ def _rp_cli(rp):
 
 REPLAYERS = {"csvenc": _rp_csvenc, "csvdec": _rp_csvdec, "csvobj": _rp_csvobj, "csvop": _rp_csvop, "propsenc": _rp_propsenc, "propsdec": _rp_propsdec,
              "xmlenc": _rp_xmlenc, "xmldec": _rp_xmldec, "xmlop": _rp_xmlop, "tomldec": _rp_tomldec, "tomlenc": _rp_tomlenc, "luaenc": _rp_luaenc,
-             "luadec": _rp_luadec, "pairop": _rp_pairop, "cli": _rp_cli, "reuseop": _rp_reuseop, "reusefiles": _rp_reusefiles}
+             "luadec": _rp_luadec, "pairop": _rp_pairop, "cli": _rp_cli, "reuseop": _rp_reuseop, "reusefiles": _rp_reusefiles, "alias": _rp_alias}
 
 
 def run(chk):
